@@ -17,7 +17,8 @@ class NICObservation(AbstractObservation, discriminator="network-interface"):
     """Status information about a network interface within the simulation environment."""
 
     capture_nmne: ClassVar[bool] = NMNEConfig().capture_nmne
-    "A Boolean specifying whether malicious network events should be captured."
+    """Retained for backwards compatibility and no longer consulted: whether malicious network events are captured is
+    decided per network (``Network.nmne_config``), and the observation follows what the observed interface reports."""
 
     class ConfigSchema(AbstractObservation.ConfigSchema):
         """Configuration schema for NICObservation."""
@@ -197,10 +198,13 @@ class NICObservation(AbstractObservation, discriminator="network-interface"):
                         for port in self.monitored_traffic[protocol]:
                             obs["TRAFFIC"][protocol][port] = {"inbound": 0, "outbound": 0}
 
-        if self.include_nmne and not self.capture_nmne:
+        # whether malicious network events are captured is a property of the observed interface's own network: the
+        # interface reports its counters exactly when capturing is on
+        capture_nmne = "nmne" in nic_state
+        if self.include_nmne and not capture_nmne:
             # the space declares NMNE whenever include_nmne is set; nothing is captured, so report no events
             obs.update({"NMNE": {"inbound": 0, "outbound": 0}})
-        if self.capture_nmne and self.include_nmne:
+        if capture_nmne and self.include_nmne:
             obs.update({"NMNE": {}})
             direction_dict = nic_state["nmne"].get("direction", {})
             inbound_keywords = direction_dict.get("inbound", {}).get("keywords", {})
